@@ -74,6 +74,38 @@ CHECKS["C18"] = ("model_checking",
     "the rig mirrors the plugin's multi-call flows (pending->accepted, pending->invalid)",
     "DESIGN.md section 6 C18")
 
+CHECKS["C15"] = ("exploration",
+    "decision table HttpApi.tla (abstract request -> allowed (status, error code) set) enumerated and checked by TLC; every abstract "
+    "request concretised and sent as raw bytes to the real warp router + tonic service + InternalAPI over real tower components",
+    "The abstract request space (method x path x size class x body class x per-field class x tower state x bitcoind up/down, plus "
+    "content-type and raw-byte families; 2401 abstract requests) is enumerated completely by TLC, which also checks the table itself "
+    "(total, never 5xx, never the catch-all code, JSON error body, 503 iff node down); each abstract request is concretised several "
+    "times and executed against the real API; status, error code, promptness, no crash and 'state unchanged on every non-200' "
+    "(every table row + in-memory users) are compared with the allowed set. Bytes inside a class are sampled, not enumerated.",
+    "request headers other than method/length are outside the statement (a non-JSON Content-Type yields 415 with a text body); "
+    "positional JSON arrays are accepted by the code and left unconstrained; prompt = 5 s",
+    "DESIGN.md section 6 C15")
+CHECKS["C16"] = ("exploration",
+    "Wire.tla (message table x value classes, signed layouts, locator rule) enumerated by TLC; the client's real request/response code "
+    "exchanged with the real warp router through a scripted tonic service and a wire recorder; layout injectivity lemmas checked by TLC",
+    "The full class product (all messages x field classes incl. empty, u32 boundaries, byte-reversed txids, status names; 11035 cases) "
+    "is enumerated by TLC and every case is executed: client code -> real router -> parsed protobuf captured, scripted protobuf reply -> "
+    "real router -> client parser, compared field by field, plus raw JSON form and the signed byte layouts. Values inside a class are "
+    "sampled.",
+    "the strings signed by the plugin binary's main.rs for get requests are exercised by the plugin end-to-end tier only; a size "
+    "limit that was raised is not noticed",
+    "DESIGN.md section 6 C16")
+CHECKS["C20"] = ("model_checking",
+    "Config.tla (effective setting = CLI over file over documented default, one-shot switches, Verify, network/port rule) checked by TLC; "
+    "every enumerated presence/value case executed on the real from_file/patch_with_options/verify and on the real teosd / teos-cli "
+    "binaries; random cases validated by Trace_Config.tla",
+    "Exhaustive over the abstract space: presence/absence of every option in file and CLI, 4 networks + unknown, all 8 credential "
+    "combinations per source, same-value and port-default families; each case carries the expectation computed by the specification and "
+    "is compared field by field after patch and after verify; refusal cases also run through the real daemon binary (exit status, "
+    "refusal before any file or connection).",
+    "unspecified corners left unconstrained: explicit port 0, bitcoind short names main/test as input, unparsable file, message texts",
+    "DESIGN.md section 6 C20")
+
 NOT_YET = {
 }
 
